@@ -431,7 +431,7 @@ impl Sim {
             self.mon.violation(
                 prop,
                 "call-panicked",
-                format!("panic-in/{}", op_sig(opname)),
+                format!("panic-in/{}|{}", op_sig(opname), sig_msg.replace('\n', " ")),
                 first,
                 id,
                 self.step,
